@@ -197,10 +197,12 @@ class _Exec:
         lines = []
         seen_with = set()
         for e in sched.events:
-            if e[1] != "line" or e[2] not in ("allow", "record_success", "record_failure", "record_cancel"):
+            if e[1] != "line" or e[2] not in ("allow", "record_success", "record_failure", "record_cancel",
+                                              "consume", "remaining"):
                 continue
             lab = f"{e[2]}{e[3]}"
-            if lab in ("allow2", "record_success1", "record_failure2", "record_cancel1"):
+            if lab in ("allow2", "record_success1", "record_failure2", "record_cancel1",
+                       "consume4", "remaining2"):
                 # leaving the `with` block reports its line once more: that is the release step
                 if (e[0], lab) in seen_with:
                     continue
@@ -240,51 +242,30 @@ def run_program(comp: str, name: str, cfg: dict, setup: list, programs: list, bo
 KNOWN_LABELS = None
 
 
-def line_conformance(tier: str, rep: Report) -> dict:
-    """Design level: TLC checks the PlusCal algorithm BreakerThreads (one label per source line)
-    for mutual exclusion, linearizability and deadlock freedom, and that its lock-free variant is
-    NOT linearizable (vacuity guard).  Binding: line-level executions of the real methods recorded
-    by the scheduler are validated against the algorithm's labels (ThreadTrace.tla)."""
+def _design(tier: str, module: str, base: str) -> int:
     from .tlc import pick_cfg, run_tlc
 
-    d = run_tlc("BreakerThreads.tla", pick_cfg("BreakerThreads_locked", tier), tag="bt", timeout=3000,
-                extra=["-deadlock"] if False else None)
+    d = run_tlc(f"{module}.tla", pick_cfg(f"{base}_locked", tier), tag=f"{base}-l", timeout=3000)
     if not d.ok:
-        raise Machinery(f"BreakerThreads (locked) violates {d.violated}")
-    nl = run_tlc("BreakerThreads.tla", "BreakerThreads_nolock.cfg", tag="bt-nolock", timeout=3000)
+        raise Machinery(f"{module} (locked) violates {d.violated}")
+    nl = run_tlc(f"{module}.tla", f"{base}_nolock.cfg", tag=f"{base}-nl", timeout=3000)
     if nl.ok or "Linearizable" not in nl.violated:
-        raise Machinery("vacuity guard: the lock-free variant of BreakerThreads was not refuted")
-    # line traces of the real code for programs inside the algorithm's scope
+        raise Machinery(f"vacuity guard: the lock-free variant of {module} was not refuted")
+    return d.distinct
+
+
+def _ticks(x: float) -> int:
+    return int(round(x / vtime.TICK)) - vtime.BASE_TICKS
+
+
+def _validate_lines(traces: list[dict], algo: str, trace_module: str, rep: Report) -> int:
     import json as _json
-    traces = []
-    rng = random.Random(seed() + 170)
-    scope = [p for p in systematic_programs() if p[0] == "breaker"]
-    rng.shuffle(scope)
-    for comp, name, cfg, setup, programs in scope[: (25 if tier == "quick" else 120)]:
-        def make(cfg=cfg, setup=setup, programs=programs):
-            ex = _Exec("breaker", cfg, setup, programs)
-            return ex.sched, [ex.thread_program(p) for p in programs], ex.collect
-        n = 0
-        for h in _explore_with_clock(make, 1, 12 if tier == "quick" else 60):
-            if h["deadlock"] or h["errors"]:
-                continue
-            # the scenario as the algorithm sees it: state after the setup operations
-            ex0 = _Exec("breaker", cfg, setup, programs)
-            b = ex0.obj
-            init = {"st": STATE[b.state.value],
-                    "openedAt": -1 if b._opened_at is None else int(round(b._opened_at / vtime.TICK)) - vtime.BASE_TICKS,
-                    "probe": bool(b._probe_in_flight),
-                    "fails": [int(round(x / vtime.TICK)) - vtime.BASE_TICKS for x in b._failures]}
-            vtime.set_active(None)
-            sc = {"cfg": {"thr": cfg["thr"], "W": cfg["W"], "R": cfg["R"], "trip": cfg["trip"]},
-                  "init": init, "clock": programs[0][0]["t"],
-                  "prog": [{"op": p[0]["op"], "k": p[0]["k"]} for p in programs]}
-            traces.append({"sc": sc, "lines": h["lines"], "program": name})
-            n += 1
-    from .tracecheck import SPEC, WORK
     import os
     import re
-    known = set(re.findall(r'pc\[self\] = "(\w+)"', (SPEC / "BreakerThreads.tla").read_text()))
+
+    from .tlc import run_tlc
+    from .tracecheck import SPEC, WORK
+    known = set(re.findall(r'pc\[self\] = "(\w+)"', (SPEC / f"{algo}.tla").read_text()))
     for t in traces:      # continuation lines of multi-line statements have no label of their own
         kept, last = [], {}
         for e in t["lines"]:
@@ -293,24 +274,86 @@ def line_conformance(tier: str, rep: Report) -> dict:
             kept.append(e)
             last[e[0]] = e[1]
         t["lines"] = kept
-    tf = WORK / f"trace-lines-{os.getpid()}.json"
-    cf = WORK / f"ThreadTrace-{os.getpid()}.cfg"
+    # canary: the first trace with one label replaced must be rejected
+    bad = _json.loads(_json.dumps(traces[0]))
+    mid = len(bad["lines"]) // 2
+    bad["lines"][mid][1] = next(x for x in sorted(known) if x != bad["lines"][mid][1] and x[-1].isdigit())
+    bad["program"] = "canary"
+    traces = traces + [bad]
+    WORK.mkdir(exist_ok=True)
+    tf = WORK / f"trace-lines-{algo}-{os.getpid()}.json"
+    cf = WORK / f"{trace_module}-{os.getpid()}.cfg"
     tf.write_text(_json.dumps([{"sc": t["sc"], "lines": t["lines"]} for t in traces]))
-    cf.write_text((SPEC / "ThreadTrace.cfg.tpl").read_text().replace("@N@", str(len(traces))))
+    cf.write_text((SPEC / f"{trace_module}.cfg.tpl").read_text().replace("@N@", str(len(traces))))
     try:
-        tr = run_tlc("ThreadTrace.tla", str(cf), workers=4, env={"TRACE_FILE": str(tf)}, tag="tt", timeout=3000)
+        tr = run_tlc(f"{trace_module}.tla", str(cf), workers=4, env={"TRACE_FILE": str(tf)},
+                     tag=f"tt-{algo}", timeout=3000)
     finally:
         tf.unlink(missing_ok=True)
         cf.unlink(missing_ok=True)
     if not tr.ok:
-        raise Machinery(f"ThreadTrace reported {tr.violated}")
+        raise Machinery(f"{trace_module} reported {tr.violated}")
     accepted = {a[0] for a in tr.tagged.get("ACCEPT", [])}
+    if len(traces) in accepted:
+        raise Machinery(f"canary: {trace_module} accepted a line trace with a wrong label")
+    traces = traces[:-1]
     rejected = [t for i, t in enumerate(traces, 1) if i not in accepted]
     if rejected:
         rep.drift.append(f"{len(rejected)} of {len(traces)} line-level executions are not behaviours of "
-                         f"BreakerThreads.tla (e.g. program {rejected[0]['program']})")
-    return {"design_states": d.distinct, "design_lockfree_refuted": True,
-            "line_traces_checked": len(traces), "line_traces_conformant": len(traces) - len(rejected)}
+                         f"{algo}.tla (e.g. program {rejected[0]['program']})")
+    return len(traces) - len(rejected)
+
+
+def line_conformance(tier: str, rep: Report) -> dict:
+    """Design level: TLC checks the PlusCal algorithms BreakerThreads and BudgetThreads (one label
+    per source line) for mutual exclusion, linearizability and deadlock freedom, and that their
+    lock-free variants are NOT linearizable (vacuity guard).  Binding: line-level executions of the
+    real methods recorded by the scheduler are validated against the algorithms' labels
+    (ThreadTrace.tla, BudgetThreadTrace.tla)."""
+    d_states = _design(tier, "BreakerThreads", "BreakerThreads")
+    u_states = _design(tier, "BudgetThreads", "BudgetThreads")
+    rng = random.Random(seed() + 170)
+    out = {}
+    for comp, algo, tmod in (("breaker", "BreakerThreads", "ThreadTrace"),
+                             ("budget", "BudgetThreads", "BudgetThreadTrace")):
+        traces = []
+        scope = [p for p in systematic_programs()
+                 if p[0] == comp and len({op["t"] for prog in p[4] for op in prog}) == 1
+                 and all(len(prog) == 1 for prog in p[4])]
+        rng.shuffle(scope)
+        for _comp, name, cfg, setup, programs in scope[: (25 if tier == "quick" else 120)]:
+            def make(cfg=cfg, setup=setup, programs=programs, comp=comp):
+                ex = _Exec(comp, cfg, setup, programs)
+                return ex.sched, [ex.thread_program(p) for p in programs], ex.collect
+            for h in _explore_with_clock(make, 1, 12 if tier == "quick" else 60):
+                if h["deadlock"] or h["errors"]:
+                    continue
+                # the scenario as the algorithm sees it: state after the setup operations
+                ex0 = _Exec(comp, cfg, setup, programs)
+                b = ex0.obj
+                if comp == "breaker":
+                    init = {"st": STATE[b.state.value],
+                            "openedAt": -1 if b._opened_at is None else _ticks(b._opened_at),
+                            "probe": bool(b._probe_in_flight),
+                            "fails": [_ticks(x) for x in b._failures]}
+                    sc = {"cfg": {"thr": cfg["thr"], "W": cfg["W"], "R": cfg["R"], "trip": cfg["trip"]},
+                          "init": init, "clock": programs[0][0]["t"],
+                          "prog": [{"op": p[0]["op"], "k": p[0]["k"]} for p in programs]}
+                else:
+                    sc = {"cfg": {"max": cfg["max"], "W": cfg["W"]},
+                          "init": [_ticks(x) for x in b._events], "clock": programs[0][0]["t"],
+                          "prog": [{"op": p[0]["op"], "cost": p[0].get("cost", 0)} for p in programs]}
+                vtime.set_active(None)
+                traces.append({"sc": sc, "lines": h["lines"], "program": name})
+        if not traces:
+            raise Machinery(f"no line-level executions recorded for {comp}")
+        ok = _validate_lines(traces, algo, tmod, rep)
+        out[comp] = {"line_traces_checked": len(traces), "line_traces_conformant": ok}
+    return {"design_states": d_states + u_states, "design_states_breaker": d_states,
+            "design_states_budget": u_states, "design_lockfree_refuted": True,
+            "line_traces_checked": sum(v["line_traces_checked"] for v in out.values()),
+            "line_traces_conformant": sum(v["line_traces_conformant"] for v in out.values()),
+            "line_traces": out}
 
 
 def check(tier: str) -> Report:
